@@ -26,7 +26,7 @@ var spPairs = []spPair{
 	{A: "tensor.(*Dense).Max", B: "tensor.(*Dense).Min", Map: [][2]string{{"Max", "Min"}}, Props: []string{"C08"}},
 	{A: "tensor.(*Dense).Sum", B: "tensor.(*Dense).Min", Map: [][2]string{{"Sum", "Min"}}, Props: []string{"C08"}},
 	{A: "tensor.(*Dense).Argmax", B: "tensor.(*Dense).Argmin", Map: [][2]string{{"Argmax", "Argmin"}, {"argmax", "argmin"}}, Props: []string{"C08"}},
-	{A: "tensor.(Float32Engine).Add", B: "tensor.(Float64Engine).Add", Map: [][2]string{{"32", "64"}}, Props: []string{"C20"}},
+	{A: "tensor.(Float32Engine).Add", B: "tensor.(Float64Engine).Add", Map: [][2]string{{"32", "64"}}, Props: []string{"C20", "C06"}},
 	{A: "tensor.(Float32Engine).FMA", B: "tensor.(Float64Engine).FMA", Map: [][2]string{{"32", "64"}}, Props: []string{"C20"}},
 	{A: "tensor.(Float32Engine).FMAScalar", B: "tensor.(Float64Engine).FMAScalar", Map: [][2]string{{"32", "64"}}, Props: []string{"C20"}},
 	{A: "tensor.(Float32Engine).Inner", B: "tensor.(Float64Engine).Inner", Map: [][2]string{{"32", "64"}, {"whichblas.S", "whichblas.D"}}, Props: []string{"C20", "C09"}},
